@@ -480,6 +480,12 @@ func (m *MetadataStore) GroupJoin(ctx context.Context, g *protocoltypes.Group) (
 		return nil, errcode.ErrCode_ErrGroupInvalidType
 	}
 
+	// only multi-member groups are joined by invitation: account and contact groups are
+	// derived from the account keys, and the key store uses the account identity for them
+	if g.GetGroupType() != protocoltypes.GroupType_GroupTypeMultiMember {
+		return nil, errcode.ErrCode_ErrGroupInvalidType
+	}
+
 	if err := g.IsValid(); err != nil {
 		return nil, errcode.ErrCode_ErrDeserialization.Wrap(err)
 	}
